@@ -20,6 +20,22 @@ def _get_properties_dict(properties):
         ) from e
 
 
+def _insert_in_property_order(obj, name, value):
+    """Add a specification-defined property to an already constructed object
+    at the position the constructor (and hence the parser) would give it, so
+    that the object serializes exactly like its own re-parsed serialization.
+    """
+    inner = {}
+    for prop_name in obj._properties:
+        if prop_name == name:
+            inner[prop_name] = value
+        elif prop_name in obj._inner:
+            inner[prop_name] = obj._inner[prop_name]
+    for prop_name, prop_value in obj._inner.items():
+        inner.setdefault(prop_name, prop_value)
+    obj._inner = inner
+
+
 def _custom_object_builder(cls, type, properties, version, base_class):
     prop_dict = _get_properties_dict(properties)
 
@@ -34,7 +50,7 @@ def _custom_object_builder(cls, type, properties, version, base_class):
             ext = getattr(self, 'with_extension', None)
             if ext and version != '2.0':
                 if 'extensions' not in self._inner:
-                    self._inner['extensions'] = {}
+                    _insert_in_property_order(self, 'extensions', {})
                 self._inner['extensions'][ext] = class_for_type(ext, version, "extensions")()
 
     _CustomObject.__name__ = cls.__name__
@@ -80,7 +96,7 @@ def _custom_observable_builder(cls, type, properties, version, base_class, id_co
             ext = getattr(self, 'with_extension', None)
             if ext and version != '2.0':
                 if 'extensions' not in self._inner:
-                    self._inner['extensions'] = {}
+                    _insert_in_property_order(self, 'extensions', {})
                 self._inner['extensions'][ext] = class_for_type(ext, version, "extensions")()
 
     _CustomObservable.__name__ = cls.__name__
